@@ -10,13 +10,29 @@ use crate::{Ctx, Out};
 pub const FUEL: usize = 12;
 
 pub fn run(ctx: &Ctx, out: &mut Out) {
+    // (program text, goal texts, graph family?)
+    let mut jobs: Vec<(String, Vec<String>, bool)> = vec![];
+    // corpus lines `program | lines ;; goal ; goal` (minimised past failures, replayed first)
+    for l in ctx.corpus_lines() {
+        if let Some((p, g)) = l.split_once(";;") {
+            let text = p.trim().replace(" | ", "\n");
+            let graph = text.contains("impl G for N");
+            jobs.push((text, g.split(';').map(|s| s.trim().to_string()).collect(), graph));
+        }
+    }
     let nprog = ctx.budget(150, 5000);
     for i in 0..nprog {
         let mut rng = ctx.rng(0, i as u64);
         let coinductive = rng.chance(1, 3);
+        let graph = rng.chance(1, 3);
+        let (gtext_prog, gn) = if graph { graph_program(&mut rng, coinductive) } else { (String::new(), 0) };
         let mut pg = ProgGen { rng: &mut rng, cfg: ProgCfg { coinductive, ..ProgCfg::default() } };
         let prog = pg.program();
-        let text = prog.render();
+        let text = if graph { gtext_prog.clone() } else { prog.render() };
+        let goals: Vec<String> = (0..8).map(|_| if graph { graph_goal(pg.rng, gn) } else { goal_text(&pg.ground_goal(&prog, 2)) }).collect();
+        jobs.push((text, goals, graph));
+    }
+    for (text, goals, graph) in jobs {
         let (_db, program) = match lower_program(&text, chalk_integration::SolverChoice::slg_default()) {
             Ok(x) => x,
             Err(e) => {
@@ -33,9 +49,7 @@ pub fn run(ctx: &Ctx, out: &mut Out) {
             }
         };
         out.count("programs");
-        for _ in 0..8 {
-            let g = pg.ground_goal(&prog, 2);
-            let gtext = goal_text(&g);
+        for gtext in goals {
             let goal = match lower_goal_text(&program, &gtext) {
                 Ok(g) => g,
                 Err(e) => {
@@ -52,14 +66,34 @@ pub fn run(ctx: &Ctx, out: &mut Out) {
                 }
             };
             let peeled = peel(&goal);
+            // graph family: a work budget (the SLG solver does not return on some of them, F32),
+            // and the shape of the cycles the goal reaches refines the classifiers
+            let shape = if graph { graph_shape(&text, &gtext) } else { "" };
+            if graph {
+                out.count(&format!("graph_shape_{}", shape));
+            }
             for (name, choice) in solver_choices() {
-                let r = solve_fresh(&text, &peeled, choice);
+                let budget = if graph { Some(if name == "slg" { 2500 } else { 200_000 }) } else { None };
+                let r = solve_fresh_budget(&text, &peeled, choice, budget);
                 let kind = answer_kind(&r);
                 out.count(&format!("{}_{}", name, kind));
                 if let Err(site) = &r {
-                    out.fail(&format!("{} solver panicked: {}", name, site), &format!("{} ;; goal {}", text.replace('\n', " "), gtext), "solver_panic");
+                    let cls = if site.contains("Negative subgoal had delayed_subgoals") {
+                        "slg_negative_subgoal_delayed_panic".to_string()
+                    } else if site == BUDGET_PANIC {
+                        format!("{}_work_budget_exceeded@{}", name, shape)
+                    } else {
+                        "solver_panic".to_string()
+                    };
+                    out.fail(&format!("{} solver panicked: {}", name, site), &format!("{} ;; goal {}", text.replace('\n', " "), gtext), &cls);
+                    // no answer to judge
+                    continue;
                 }
-                let req = tagged("judge-ground", vec![horn.clone(), hgoal.clone(), nat(FUEL), atom(kind)]);
+                let req = if graph {
+                    tagged("judge-ground", vec![horn.clone(), hgoal.clone(), nat(FUEL), atom(kind), atom(&format!("{}-{}", name, shape))])
+                } else {
+                    tagged("judge-ground", vec![horn.clone(), hgoal.clone(), nat(FUEL), atom(kind)])
+                };
                 // the Lean checker answers (accepted ..) / (rejected <classifier> ..) / (inconclusive ..)
                 out.case(req.to_string(), "ACCEPT".to_string(), true, &format!("{} | {} | goal {{ {} }}", name, text.replace('\n', " "), gtext));
             }
